@@ -73,16 +73,21 @@ func runPredicate(r *ev.Run) {
 // ---------------------------------------------------------------- stream part
 
 type cfg struct {
-	Reg     string // "205obs" "205" "203obs" "404" "none"
-	Depth   int
-	Two     bool // two simultaneous observations, notifications for either token
-	Preempt int
-	CON     bool // notifications are confirmable
-	Conc    bool // every received message is processed in its own thread (exported ProcessReceivedMessage option); notifications injected back to back
+	Reg        string // "205obs" "205" "203obs" "404" "none"
+	Depth      int
+	Two        bool // two simultaneous observations, notifications for either token
+	Preempt    int
+	CON        bool // notifications are confirmable
+	DeregFails bool // the peer never answers the deregistration request: Cancel ends with its (virtual) deadline
+	Conc       bool // every received message is processed in its own thread (exported ProcessReceivedMessage option); notifications injected back to back
 }
 
 func (c cfg) String() string {
-	return fmt.Sprintf("observe reg=%s depth=%d two=%v con-notifications=%v concurrent-processing=%v preempt<=%d", c.Reg, c.Depth, c.Two, c.CON, c.Conc, c.Preempt)
+	d := ""
+	if c.DeregFails {
+		d = " deregistration-unanswered"
+	}
+	return fmt.Sprintf("observe reg=%s depth=%d two=%v con-notifications=%v concurrent-processing=%v preempt<=%d%s", c.Reg, c.Depth, c.Two, c.CON, c.Conc, c.Preempt, d)
 }
 
 var seqAlphabet = []uint32{0, 1, 2, 1 << 23, 1<<23 + 1, 1<<24 - 1}
@@ -141,7 +146,12 @@ func scenario(c cfg) *mcx.Scenario {
 							return
 						}
 						vrt.WaitUntil("observer waits for the cancel command", func() bool { return obs[i].cancelReq })
-						obs[i].cancelErr = o.Cancel(context.Background())
+						cctx, ccancel := context.Background(), context.CancelFunc(func() {})
+						if c.DeregFails {
+							cctx, ccancel = vrt.WithTimeout(context.Background(), 5*time.Second)
+						}
+						obs[i].cancelErr = o.Cancel(cctx)
+						ccancel()
 						obs[i].cancelDone = true
 					})
 				}
@@ -258,7 +268,9 @@ func scenario(c cfg) *mcx.Scenario {
 						}
 						if ov == 1 && !deregSeen[idx] {
 							deregSeen[idx] = true
-							_ = w.Inject(ackOrNon(codes.Content, false, 0, true))
+							if !c.DeregFails {
+								_ = w.Inject(ackOrNon(codes.Content, false, 0, true))
+							}
 						}
 					}
 				}
@@ -319,6 +331,17 @@ func scenario(c cfg) *mcx.Scenario {
 						hist = append(hist, fmt.Sprintf("cancel%d", e.i))
 						cancelsIssued++
 						obs[e.i].cancelReq = true
+						if c.DeregFails {
+							// the deregistration request goes unanswered; Cancel returns with its deadline
+							vrt.Quiesce("peer: deregistration on the wire")
+							serve()
+							vrt.Advance(6 * time.Second)
+							w.CC.CheckExpirations(vrt.Now())
+							vrt.Quiesce("peer: cancel returned")
+							if !obs[e.i].cancelDone {
+								fail("cancel-did-not-return", "Cancel has not returned 1 s after its deadline")
+							}
+						}
 					}
 				}
 				// registration outcome
@@ -338,6 +361,10 @@ func scenario(c cfg) *mcx.Scenario {
 				for k := 0; k < 4; k++ {
 					vrt.Quiesce("peer: final drain")
 					serve()
+					if c.DeregFails && k == 1 {
+						vrt.Advance(6 * time.Second) // the final Cancel is not answered either: its deadline ends it
+						w.CC.CheckExpirations(vrt.Now())
+					}
 				}
 				account()
 				for i := range ctxs {
@@ -375,6 +402,8 @@ func main() {
 		scs = append(scs, scenario(cfg{Reg: reg, Depth: 2}))
 	}
 	scs = append(scs, scenario(cfg{Reg: "205obs", Depth: ev.Pick(r, 2, 3), Two: true}))
+	scs = append(scs, scenario(cfg{Reg: "205obs", Depth: ev.Pick(r, 2, 3), DeregFails: true}))
+	scs = append(scs, scenario(cfg{Reg: "205obs", Depth: 2, DeregFails: true, CON: true}))
 	scs = append(scs, scenario(cfg{Reg: "205obs", Depth: 2, Preempt: 1}))
 	scs = append(scs, scenario(cfg{Reg: "205obs", Depth: 1, Conc: true, Preempt: map[bool]int{true: 1, false: ev.Pick(r, 2, 3)}[r.Lite()]}))
 	sum := mcx.Explore(r, scs, mcx.Config{Wall: ev.Pick(r, 4*time.Minute, 30*time.Minute)})
